@@ -790,8 +790,11 @@ func runEpisode(prog *progSpec) (res epResult) {
 		}
 	}
 	g.jobKey = func(x any) int {
-		if j, ok := x.(interface{ Data() int }); ok {
-			return j.Data()
+		switch v := x.(type) {
+		case interface{ Data() int }:
+			return v.Data()
+		case []byte:
+			return keyOfBytes(v)
 		}
 		return 0
 	}
